@@ -13,6 +13,9 @@ Theorem C01_code_maps_as_modelled :
    or_insert_wf Gen.CacheMap.AssetMap_insert "write" = true /\
    take_wf Gen.CacheMap.AssetMap_take = true /\
    shard_index_wf Gen.CacheMap.AssetMap_get_shard = true /\
+   shard_index_wf Gen.CacheMap.AssetMap_get_shard_mut = true /\
+   take_uses_shard_of_key Gen.CacheMap.AssetMap_take = true /\
+   remove_is_take Gen.CacheMap.AssetMap_remove = true /\
    keyed_lookup Gen.LocalMap.AssetMap_get "borrow" "get" = true /\
    keyed_lookup Gen.LocalMap.AssetMap_contains_key "borrow" "contains_key" = true /\
    or_insert_wf Gen.LocalMap.AssetMap_insert "borrow_mut" = true /\
